@@ -386,3 +386,48 @@ def r_hessian_bound_sqrt(A, ctx, scope, rule="R-HESS-BOUND"):
         except (Unsupported, ZeroDivisionError) as e:
             ctx.ob(rule, key, None, detail=f"not lifted: {e}")
     ctx.floor(rule, n, 3)
+
+
+def r_cox_global(A, ctx, scope, rule="R-COX-GLIP"):
+    """C09: Cox global Lipschitz constant against a curvature the loss actually reaches"""
+    cls = _cox(A)
+    ctx.rule(rule, "Cox (Breslow): get_global_lipschitz(X, y) = c * |X|_2^2 with c at least the curvature of "
+             "the lifted value() along d = (e_i - e_j) / sqrt(2) at a linear predictor where the two "
+             "longest-surviving subjects i, j dominate every risk set (second derivatives of the lifted "
+             "value, evaluated at that witness): with the orthonormal design [d, (e_i + e_j) / sqrt(2)] "
+             "this curvature is an eigenvalue bound of X^T H X, so a smaller c is not a global bound")
+    n_ob = 0
+    for tm, s in PATTERNS:
+        tag = f"tm={tm},s={s}"
+        n = len(tm)
+        order = sorted(range(n), key=lambda k: -tm[k])
+        i, j = order[0], order[1]
+        try:
+            L, rg, so, y, Xw = _setup(A, cls, tm, s, False)
+            for a in range(n):
+                for b in range(2):
+                    rg.values[f"q{a}{b}"] = 0.3 + 0.1 * a - 0.07 * b
+            X = Mat(Vec(sym(f"q{a}{b}") for b in range(2)) for a in range(n))
+            glob = R(L.call_function(cls.find_method("get_global_lipschitz"), [X, y], self_obj=so))
+            spec = L.spectral(X)
+            coef = glob / (spec * spec)
+            if any(a[0] == "sym" and str(a[1]).startswith(("SPEC_", "q")) for a in coef.all_atoms()):
+                raise Unsupported("global constant is not a multiple of the squared spectral norm")
+            got = rg.num(coef)
+            val = R(L.call_function(cls.find_method("value"), [y, None, Xw], self_obj=so))
+            gi = derivative(val, ("sym", f"v{i}"))
+            gj = derivative(val, ("sym", f"v{j}"))
+            hii, hjj, hij = derivative(gi, ("sym", f"v{i}")), derivative(gj, ("sym", f"v{j}")), \
+                derivative(gi, ("sym", f"v{j}"))
+            wit = Region({f"v{k}": (12.0 if k in (i, j) else 0.0) for k in range(n)})
+            curv = 0.5 * (wit.num(hii) + wit.num(hjj) - 2 * wit.num(hij))
+            n_ob += 1
+            ctx.ob(rule, f"{cls.fq}::get_global_lipschitz::{tag}", got >= curv - 1e-9,
+                   what=f"Cox.get_global_lipschitz = {got:.4g} * |X|^2 for times {tm}, censoring {s}, but the "
+                        f"loss has curvature {curv:.4g} along (e_{i} - e_{j}) / sqrt(2) where subjects {i} and {j} "
+                        "dominate the risk sets (orthonormal two-column design): the constant is not a global "
+                        "bound and FISTA's step 1/L is too long",
+                   loc=loc(cls.find_method("get_global_lipschitz"), cls.find_method("get_global_lipschitz").node))
+        except (Unsupported, Raised, ZeroDivisionError) as e:
+            ctx.ob(rule, f"{cls.fq}::get_global_lipschitz::{tag}", None, detail=f"not lifted: {e}")
+    ctx.floor(rule, n_ob, 5)
